@@ -1,6 +1,6 @@
 (* C12 — the option layer: command line over configuration, idempotent under re-application. *)
-From Apko Require Import Base.Prelude Base.C12Lib Generated.C12Oci Model.Oci Model.OciOptions
-  Spec.OciSpec Spec.OciOptionsSpec Proofs.OciProofs.
+From Apko Require Import Base.Prelude Base.C12Lib Generated.C12Oci Model.Oci Model.OciOptions Model.OciTime Model.OciShlex Model.OciImage
+  Spec.OciSpec Spec.OciOptionsSpec Spec.OciTimeSpec Spec.OciImageSpec Proofs.OciProofs Proofs.OciTimeProofs Proofs.OciImageProofs.
 From Coq Require Import Permutation.
 Open Scope string_scope. Open Scope list_scope.
 
@@ -94,3 +94,85 @@ Lemma annotations_precedence_refuted :
   with_annotations_dir false [("k", "from-config-file")] [("k", "from-command-line")] ["k"] = [("k", "from-config-file")] /\
   declared_annotation [("k", "from-config-file")] [("k", "from-command-line")] "k" = Some "from-command-line".
 Proof. split; reflexivity. Qed.
+
+(* ---- SOURCE_DATE_EPOCH ------------------------------------------------------------------------ *)
+Lemma parse_int64_range s z : parse_int64 s = Some z -> (int64_min <= z <= int64_max)%Z.
+Proof.
+  unfold parse_int64. destruct (match s with String c r => _ | EmptyString => _ end) as [neg u].
+  destruct (all_digits u); [|discriminate].
+  destruct ((int64_min <=? _)%Z && (_ <=? int64_max)%Z) eqn:E; [|discriminate].
+  intro H. inversion H; subst. apply andb_true_iff in E. rewrite !Z.leb_le in E. exact E.
+Qed.
+
+(* decimal numerals: appending a digit multiplies by ten and adds it *)
+Lemma dec_value_snoc u c : dec_value (u ++ String c "")%string = (10 * dec_value u + (Z.of_N (N_of_ascii c) - 48))%Z.
+Proof.
+  unfold dec_value.
+  assert (E : list_ascii_of_string (u ++ String c "")%string = list_ascii_of_string u ++ [c]).
+  { induction u as [|x u IH]; [reflexivity|]. cbn. rewrite IH. reflexivity. }
+  rewrite E, fold_left_app. reflexivity.
+Qed.
+
+Lemma declared_date_env_cases ds env z0 : fold_left apply_date ds (Ok 0%Z) = Ok z0 ->
+  declared_date_env ds env =
+  match env with
+  | None => Ok z0
+  | Some v => if all_space v then Ok z0 else match parse_int64 v with Some e => Ok e | None => Err end
+  end.
+Proof. intro H. unfold declared_date_env. rewrite H. reflexivity. Qed.
+
+Lemma declared_date_env_override ds v e z0 :
+  fold_left apply_date ds (Ok 0%Z) = Ok z0 -> parse_int64 v = Some e -> declared_date_env ds (Some v) = Ok e.
+Proof.
+  intros H P. rewrite (declared_date_env_cases ds (Some v) z0 H).
+  destruct (all_space v) eqn:A; [|rewrite P; reflexivity].
+  exfalso. (* a string of white space only is not a number *)
+  unfold parse_int64 in P. destruct v as [|c r]; [discriminate|].
+  assert (K : forall x rest, (N_of_ascii x <? 128)%N = true ->
+            ((9 <=? N_of_ascii x) && (N_of_ascii x <=? 13) || (N_of_ascii x =? 32))%N = false -> all_space (String x rest) = false).
+  { intros x rest Hlt Hs. apply N.ltb_lt in Hlt. cbn [all_space]. rewrite Hs.
+    destruct rest as [|c1 r1]; [reflexivity|].
+    replace (N_of_ascii x =? 194)%N with false by (symmetry; apply N.eqb_neq; lia). cbn [andb].
+    destruct r1 as [|c2 r2]; [reflexivity|].
+    replace (N_of_ascii x =? 225)%N with false by (symmetry; apply N.eqb_neq; lia).
+    replace (N_of_ascii x =? 226)%N with false by (symmetry; apply N.eqb_neq; lia).
+    replace (N_of_ascii x =? 227)%N with false by (symmetry; apply N.eqb_neq; lia). reflexivity. }
+  destruct (Ascii.eqb_spec c "-"%char) as [->|N1]; [rewrite (K "-"%char r eq_refl eq_refl) in A; discriminate|].
+  destruct (Ascii.eqb_spec c "+"%char) as [->|N2]; [rewrite (K "+"%char r eq_refl eq_refl) in A; discriminate|].
+  destruct (all_digits (String c r)) eqn:Hr; [|discriminate].
+  cbn in Hr. apply andb_true_iff in Hr. destruct Hr as [Hx _]. unfold is_dec_digit in Hx.
+  apply andb_true_iff in Hx. rewrite !N.leb_le in Hx.
+  rewrite K in A; [discriminate|apply N.ltb_lt; lia|].
+  apply orb_false_iff. split; [apply andb_false_iff; right; apply N.leb_gt; lia|apply N.eqb_neq; lia].
+Qed.
+
+(* SOURCE_DATE_EPOCH = a base-10 int64 [e] in the serialisable range: it is the declared creation
+   time whatever the date options said, and the created texts of config, history, label and
+   index annotation are [e] printed by the RFC 3339 printer, which denotes [e] *)
+Lemma source_date_epoch_created ds z0 v e base bh etype ic arch nlayers dord eord :
+  fold_left apply_date ds (Ok 0%Z) = Ok z0 -> parse_int64 v = Some e ->
+  (rfc3339_min <= e <= rfc3339_max)%Z ->
+  merge_into_copies_vcs_url = true -> NoDup (akeys (ic_env ic)) ->
+  Permutation dord (akeys default_env) -> Permutation eord (akeys (with_defaults default_env dord (ic_env ic))) ->
+  declared_date_env ds (Some v) = Ok e /\ (int64_min <= e <= int64_max)%Z /\
+  parse_rfc3339 (format_rfc3339 e) = Some e /\
+  alookup created_key (index_annotations format_rfc3339 (ic_vcs_url ic) e (ic_annotations ic)) = Some (format_rfc3339 e) /\
+  match build_image true etype base bh ic (utc_time e) arch nlayers dord eord with
+  | Ok out => ImageTimeOk bh nlayers e out /\
+              io_created out = Some (format_rfc3339 e) /\
+              alookup created_key (oc_labels (io_config out)) = Some (format_rfc3339 e)
+  | Err => shlex_failed shlex_split (declared_ic etype ic)
+  | _ => False
+  end.
+Proof.
+  intros H P R Flag NE Pd Pe.
+  split; [exact (declared_date_env_override ds v e z0 H P)|]. split; [exact (parse_int64_range v e P)|].
+  split; [exact (rfc3339_roundtrip e R)|].
+  split; [rewrite index_labels_lookup; unfold expected_label; rewrite String.eqb_refl; reflexivity|].
+  pose proof (build_image_mirrors base bh etype ic e arch nlayers dord eord Flag R NE Pd Pe) as B.
+  destruct (build_image true etype base bh ic (utc_time e) arch nlayers dord eord) as [out| | |] eqn:E; try exact B.
+  destruct B as [CM TO]. split; [exact TO|]. split.
+  - unfold build_image in E. cbn [utc_time t_sec t_nsec t_off] in E. rewrite (marshal_utc_in_range e R) in E.
+    destruct (build_config _ _ _ _ _ _ _ _) as [cfg| | |]; cbn [rbind] in E; inversion E. reflexivity.
+  - destruct CM as [_ _ _ _ _ _ _ Hl _ _ _]. rewrite (Hl created_key). unfold expected_label. rewrite String.eqb_refl. reflexivity.
+Qed.
